@@ -59,7 +59,8 @@ def extractor_broken(detail):
 def build_atomics(cfg, variant):
     san = "asan-nosio" if variant == "sim" else "asan"      # DESIGN C04 "Not proved": signed wrap in (*atomic)++
     return pv.build_harness("atomics-" + variant, cfg, ["atomics.c"], repo_files=ATOMIC_SRC[variant] + BASE, san=san,
-                            extra=['-DPV_VARIANT="%s"' % variant], tag="atomics-" + variant)
+                            extra=['-DPV_VARIANT="%s"' % variant], tag="atomics-" + variant,
+                            link=["-Wl,--wrap=pthread_mutex_lock", "-Wl,--wrap=pthread_mutex_unlock"])
 
 
 LOCK_KINDS = {"c11": (1, 1), "sync": (1, 1), "sim": (1, 0), "posix": (2, 0), "posix-script": (3, 0)}
